@@ -1025,7 +1025,7 @@ Proof.
     + split; auto. intros k v. split.
       * intros H. exfalso. eapply stored_empty; eauto.
       * intros (i & Hi & _). simpl in Hi. lia.
-  - destruct (resize_into t (cap t) 62 HI (le_n _) Hlt) as (t1 & Hrun & HS1 & Hcap1 & Hcnt1 & Hc1 & Hst1).
+  - destruct (resize_into t (cap t) 63 HI (le_n _) Hlt) as (t1 & Hrun & HS1 & Hcap1 & Hcnt1 & Hc1 & Hst1).
     exists t1. split; [exact Hrun|]. split; [|split; auto].
     split; [exact HS1|]. split; [exact Hcnt1|]. rewrite Hcap1, Hc1. split; [right; lia|lia].
 Qed.
@@ -1041,10 +1041,258 @@ Proof.
   unfold Table.tresize, Table.tset, Table.resize_depth.
   assert (Hlt : count t < c).
   { destruct Hroom as [H0|(Hi & Hlt)]; [rewrite (inv_cap0 t HI H0); lia|lia]. }
-  destruct (resize_into t c 62 HI Hle Hlt) as (t1 & Hrun & HS1 & Hcap1 & Hcnt1 & Hc1 & Hst1).
+  destruct (resize_into t c 63 HI Hle Hlt) as (t1 & Hrun & HS1 & Hcap1 & Hcnt1 & Hc1 & Hst1).
   exists t1. split; [exact Hrun|]. split; [|split; auto].
   split; [exact HS1|]. split; [exact Hcnt1|]. rewrite Hcap1, Hc1. split; [right; lia|].
   assert (cap t * thr <= c * thr) by (apply Nat.mul_le_mono_r; auto). lia.
 Qed.
 
+(* ---- the abstract map ---- *)
+Notation alookup := (alookup K V keqb).
+Notation aremove := (aremove K V keqb).
+Notation ahas := (ahas K V keqb).
+Notation amap := (amap K V).
+
+Lemma in_aremove (m : amap) k k' v' : In (k', v') (aremove m k) <-> k' <> k /\ In (k', v') m.
+Proof.
+  induction m as [|[k0 v0] m IH]; simpl; [tauto|].
+  destruct (keqb k0 k) eqn:E.
+  - apply keqb_spec in E. subst k0. rewrite IH. split.
+    + intros (H1 & H2); auto.
+    + intros (H1 & [H2|H2]); auto. inversion H2; subst. contradiction.
+  - simpl. rewrite IH. split.
+    + intros [H|(H1 & H2)]; auto. inversion H; subst. split; auto.
+      intros ->. rewrite keqb_refl in E. discriminate.
+    + intros (H1 & [H2|H2]); auto.
+Qed.
+
+Lemma aremove_nodup (m : amap) k : NoDup (map fst m) -> NoDup (map fst (aremove m k)).
+Proof.
+  induction m as [|[k0 v0] m IH]; simpl; intros H; [constructor|].
+  inversion H as [|? ? Hn Hnd]; subst.
+  destruct (keqb k0 k); auto. simpl. constructor; auto.
+  intros Hin. apply in_map_iff in Hin. destruct Hin as ([k1 v1] & E & Hin). simpl in E; subst k1.
+  apply in_aremove in Hin. destruct Hin as (_ & Hin). apply Hn. apply in_map_iff.
+  exists (k0, v1); auto.
+Qed.
+
+Lemma alookup_in (m : amap) k v : NoDup (map fst m) -> (alookup m k = Some v <-> In (k, v) m).
+Proof.
+  induction m as [|[k0 v0] m IH]; simpl; intros H.
+  - split; [discriminate|tauto].
+  - inversion H as [|? ? Hn Hnd]; subst. destruct (keqb k0 k) eqn:E.
+    + apply keqb_spec in E. subst k0. split.
+      * intros E'; inversion E'; auto.
+      * intros [E'|Hin]; [inversion E'; auto|].
+        exfalso. apply Hn. apply in_map_iff. exists (k, v); auto.
+    + rewrite (IH Hnd). split; auto. intros [E'|Hin]; auto.
+      inversion E'; subst. rewrite keqb_refl in E. discriminate.
+Qed.
+
+(* abstraction relation *)
+Definition R (t : table) (m : amap) : Prop :=
+  Inv t /\ NoDup (map fst m) /\ forall k v, stored t k v <-> In (k, v) m.
+
+Definition obs_equiv (a b : obs K V) : Prop :=
+  match a, b with
+  | ObsItems l1, ObsItems l2 => Permutation l1 l2
+  | _, _ => a = b
+  end.
+
+Definition no_resize (o : op K V) : Prop :=
+  match o with OpResize _ => False | _ => True end.
+
+Notation step := (step K V keqb hash initial growth thr).
+Notation spec_step := (spec_step K V keqb).
+Notation run_from := (run_from K V keqb hash initial growth thr).
+Notation spec_from := (spec_from K V keqb).
+Notation run_table := (run_table K V keqb hash initial growth thr).
+Notation run_spec := (run_spec K V keqb).
+Notation table0 := (table0 K V).
+
+Lemma inv_table0 : Inv table0.
+Proof.
+  split; [apply sinv_empty|]. simpl. repeat split; auto; lia.
+Qed.
+
+Lemma R_table0 : R table0 [].
+Proof.
+  split; [apply inv_table0|]. split; [constructor|].
+  intros k v. split; [intros H; exfalso; eapply stored_empty; eauto|intros []].
+Qed.
+
+Lemma option_ext (o1 o2 : option V) : (forall v, o1 = Some v <-> o2 = Some v) -> o1 = o2.
+Proof.
+  intros H. destruct o1 as [a|], o2 as [b|]; auto.
+  - destruct (H a) as (H1 & _). rewrite H1; auto.
+  - destruct (H a) as (H1 & _). specialize (H1 eq_refl). discriminate.
+  - destruct (H b) as (_ & H2). specialize (H2 eq_refl). discriminate.
+Qed.
+
+Lemma ahas_spec (m : amap) k : NoDup (map fst m) -> (ahas m k = true <-> exists v, In (k, v) m).
+Proof.
+  intros Hnd. unfold Table.ahas. destruct (alookup m k) as [v|] eqn:E.
+  - split; auto. intros _. exists v. apply alookup_in; auto.
+  - split; [discriminate|]. intros (v & Hin). apply alookup_in in Hin; auto. congruence.
+Qed.
+
+Lemma bool_ext (a b : bool) : (a = true <-> b = true) -> a = b.
+Proof.
+  destruct a, b; intros (H1 & H2); auto;
+    try (symmetry; apply H1; reflexivity); try (apply H2; reflexivity).
+Qed.
+
+Lemma step_sim t m o :
+  params_ok -> R t m -> no_resize o ->
+  exists r t', step t o = Ok (r, t') /\ obs_equiv r (fst (spec_step m o)) /\ R t' (snd (spec_step m o)).
+Proof.
+  intros Hpar (HI & Hnd & Hst) Hnr. destruct o as [k v|k|k|k| | | |c]; simpl in Hnr; try contradiction.
+  - (* set *)
+    unfold Table.step, Table.tset, Table.resize_depth.
+    destruct (tset_ok 62 t k v Hpar HI) as (t' & Hrun & HI' & Hst').
+    rewrite Hrun. cbn [obind]. exists ObsUnit, t'. split; auto. split; [reflexivity|].
+    simpl. split; auto. split.
+    + constructor; [|apply aremove_nodup; auto].
+      intros Hin. apply in_map_iff in Hin. destruct Hin as ([k1 v1] & E & Hin). simpl in E; subst k1.
+      apply in_aremove in Hin. destruct Hin as (Hn & _). contradiction.
+    + intros k' v'. rewrite Hst'. simpl. rewrite in_aremove. rewrite Hst. split.
+      * intros [(-> & ->)|H]; auto.
+      * intros [E|H]; auto. inversion E; auto.
+  - (* get *)
+    unfold Table.step. destruct (tget_ok t k HI) as (o & Hrun & Ho). rewrite Hrun. cbn [obind].
+    exists (ObsVal o), t. split; auto. split.
+    + simpl. f_equal. apply option_ext. intros v. rewrite Ho, Hst. symmetry. apply alookup_in; auto.
+    + simpl. split; auto.
+  - (* has *)
+    unfold Table.step. destruct (thas_ok t k HI) as (b & Hrun & Hb). rewrite Hrun. cbn [obind].
+    exists (ObsBool b), t. split; auto. split.
+    + simpl. f_equal. apply bool_ext. rewrite Hb, (ahas_spec m k Hnd).
+      split; intros (v & H); exists v; apply Hst; auto.
+    + simpl. split; auto.
+  - (* del *)
+    unfold Table.step. destruct (tdel_ok t k HI) as (b & t' & Hrun & HI' & _ & Hb & Hst').
+    rewrite Hrun. cbn [obind fst snd]. exists (ObsBool b), t'. split; auto. split.
+    + simpl. f_equal. apply bool_ext. rewrite Hb, (ahas_spec m k Hnd).
+      split; intros (v & H); exists v; apply Hst; auto.
+    + simpl. split; auto. split; [apply aremove_nodup; auto|].
+      intros k' v'. rewrite Hst', in_aremove, Hst. tauto.
+  - (* clear *)
+    exists ObsUnit, table0. split; auto. split; [reflexivity|]. apply R_table0.
+  - (* copy *)
+    unfold Table.step. destruct (tcopy_ok t HI) as (t' & Hrun & HI' & _ & Hst').
+    rewrite Hrun. cbn [obind]. exists ObsUnit, t'. split; auto. split; [reflexivity|].
+    simpl. split; auto. split; auto. intros k v. rewrite Hst'. apply Hst.
+  - (* iterate *)
+    exists (ObsItems (titems t)), t. split; auto. split.
+    + simpl. destruct HI as ((Hl & Hd & _) & _).
+      apply NoDup_Permutation.
+      * apply (NoDup_map_inv fst). apply items_nodup; auto.
+      * apply (NoDup_map_inv fst). auto.
+      * intros [k v]. rewrite <- (stored_items t k v Hl). apply Hst.
+    + simpl. split; auto.
+Qed.
+
+Lemma run_sim ops :
+  params_ok -> Forall no_resize ops ->
+  forall t m, R t m -> Forall2 obs_equiv (fst (run_from t ops)) (spec_from m ops).
+Proof.
+  intros Hpar. induction ops as [|o ops IH]; intros Hnr t m HR.
+  - simpl. constructor.
+  - inversion Hnr as [|? ? Ho Hrest]; subst.
+    destruct (step_sim t m o Hpar HR Ho) as (r & t' & Hstep & Heq & HR').
+    cbn [Table.run_from Table.spec_from]. rewrite Hstep.
+    specialize (IH Hrest t' _ HR').
+    destruct (run_from t' ops) as [rs tf]. simpl in *. constructor; auto.
+Qed.
+
+(* ================== main results (generic table) ================== *)
+
+(* every observable output of every history without the public resize() equals that of the
+   abstract map (iteration: up to the order of the items), for every hash function *)
+Theorem table_refines_map_lemma :
+  params_ok -> forall ops, Forall no_resize ops ->
+  Forall2 obs_equiv (run_table ops) (run_spec ops).
+Proof.
+  intros Hpar ops Hnr. unfold Table.run_table, Table.run_spec.
+  apply run_sim; auto. apply R_table0.
+Qed.
+
+Lemma spec_step_not_fail (m : amap) o :
+  fst (spec_step m o) <> ObsCrash /\ fst (spec_step m o) <> ObsHang.
+Proof. destruct o; simpl; split; discriminate. Qed.
+
+(* no Crash (division by zero, out-of-bounds) and no Hang (probe / del loop / nested resize running
+   out of fuel) is reachable *)
+Theorem table_no_failure_lemma :
+  params_ok -> forall ops, Forall no_resize ops ->
+  Forall (fun r => r <> ObsCrash /\ r <> ObsHang) (run_table ops).
+Proof.
+  intros Hpar ops Hnr. pose proof (table_refines_map_lemma Hpar ops Hnr) as H.
+  unfold Table.run_spec in H. revert H. generalize (run_table ops). generalize (@nil (K * V)).
+  induction ops as [|o ops IH]; intros m l H; simpl in H; inversion H; subst; constructor.
+  - pose proof (spec_step_not_fail m o) as (H1 & H2).
+    destruct x; simpl in *; try (split; discriminate);
+      destruct (fst (spec_step m o)); try discriminate; try contradiction; split; auto; discriminate.
+  - inversion Hnr; subst. eapply IH; eauto.
+Qed.
+
+(* literal equality of the outputs when the history does not iterate *)
+Definition no_iter (o : op K V) : Prop := match o with OpIter => False | _ => True end.
+
+Theorem table_refines_map_eq_lemma :
+  params_ok -> forall ops, Forall no_resize ops -> Forall no_iter ops ->
+  run_table ops = run_spec ops.
+Proof.
+  intros Hpar ops Hnr Hni. pose proof (table_refines_map_lemma Hpar ops Hnr) as H.
+  unfold Table.run_spec in *. revert H. generalize (run_table ops). generalize (@nil (K * V)).
+  induction ops as [|o ops IH]; intros m l H; simpl in H; inversion H; subst; auto.
+  inversion Hnr; subst. inversion Hni; subst. simpl. f_equal.
+  - destruct o; simpl in *; try contradiction; destruct x; simpl in *; auto; try discriminate.
+  - eapply IH; eauto.
+Qed.
+
+(* the items met by an iteration are exactly the bindings, each key once *)
+Theorem tresize_grow_lemma t m c :
+  params_ok -> R t m -> cap t <= c -> initial <= c ->
+  exists t', tresize t c = Ok t' /\ cap t' = c /\ R t' m.
+Proof.
+  intros Hpar (HI & Hnd & Hst) Hle Hile.
+  destruct (tresize_ok t c Hpar HI Hle Hile) as (t' & Hrun & HI' & Hcap & Hst').
+  exists t'. split; auto. split; auto. split; auto. split; auto.
+  intros k v. rewrite Hst'. apply Hst.
+Qed.
+
+(* every reachable table satisfies the invariant and is related to the abstract map: for use by
+   the instances *)
+Lemma run_from_R ops :
+  params_ok -> Forall no_resize ops ->
+  forall t m, R t m -> exists m', R (snd (run_from t ops)) m'.
+Proof.
+  intros Hpar. induction ops as [|o ops IH]; intros Hnr t m HR.
+  - simpl. eauto.
+  - inversion Hnr as [|? ? Ho Hrest]; subst.
+    destruct (step_sim t m o Hpar HR Ho) as (r & t' & Hstep & Heq & HR').
+    cbn [Table.run_from]. rewrite Hstep.
+    destruct (IH Hrest t' _ HR') as (m' & Hm').
+    destruct (run_from t' ops) as [rs tf]. simpl in *. eauto.
+Qed.
+
 End Proofs.
+
+(* ================== instances ================== *)
+Lemma params_okb_ok i g t : params_okb i g t = true -> params_ok i g t.
+Proof.
+  unfold params_okb, params_ok. intros H.
+  repeat (apply andb_prop in H; destruct H as (H & ?)).
+  apply orb_prop in H0.
+  repeat match goal with H : Nat.leb _ _ = true |- _ => apply Nat.leb_le in H end.
+  destruct H0 as [H0|H0]; apply Nat.leb_le in H0; lia.
+Qed.
+
+(* the constants of the current source tree (Generated.v) meet the side condition *)
+Theorem current_constants_ok : params_ok P_INITIAL P_GROWTH P_THRESHOLD.
+Proof. apply params_okb_ok. vm_compute. reflexivity. Qed.
+
+Check step_sim.
+Check R.
+Check table_refines_map_lemma.
